@@ -1,6 +1,7 @@
 import Rangers.Basic.Hex
 import Rangers.Basic.Line
 import Rangers.Model.Bls14Verify
+import Rangers.Model.Bls14Hash
 /-!
 Line-protocol driver for C14. One op per line; see harness/cmd/c14/main.go for the
 Go side. Anything that does not parse answers `bad-op` (never a default).
@@ -43,6 +44,14 @@ def sigReport (s : Sig) : String :=
 def pubReport (p : Pub) : String :=
   "valid=" ++ b01 (Pub.isValid p) ++ " ser=" ++ toHex (Pub.serialize p)
 
+/-- `H(m)` computed by the model itself (SHA-256 + try-and-increment) must equal the reference
+    point carried on the line; `none` otherwise. -/
+def hmChecked? (msgh hmh : String) : Option Pt := do
+  let m ← ofHex? msgh
+  let hm ← pt? hmh
+  let own ← hashToG1 m
+  if own == hm then some hm else none
+
 def verdictWith (peq : String) (f : PairEq → Verdict) : String :=
   let a := f (fun _ _ _ _ => true)
   let b := f (fun _ _ _ _ => false)
@@ -75,12 +84,16 @@ def step (_ : Unit) (line : String) : Unit × String :=
   | ["pkb", h] => match ofHex? h with
     | some b => pubReport (byteToPublicKey b)
     | none => "bad-op"
-  | ["verify", pkh, _msg, sigh, hmh, peq] => match ofHex? pkh, ofHex? sigh, pt? hmh with
-    | some pkb, some sigb, some hm => verdictWith peq (fun pe => verifyBytes pe hm pkb sigb)
+  | ["verify", pkh, msg, sigh, hmh, peq] => match ofHex? pkh, ofHex? sigh, pt? hmh with
+    | some pkb, some sigb, some _ => match hmChecked? msg hmh with
+      | some hm => verdictWith peq (fun pe => verifyBytes pe hm pkb sigb)
+      | none => "hm-mismatch"
     | _, _, _ => "bad-op"
-  | ["verify-raw", pkh, _msg, sigh, hmh, peq] => match ofHex? pkh, ofHex? sigh, pt? hmh with
-    | some pkb, some sigb, some hm =>
-      verdictWith peq (fun pe => verifySig pe hm (Pub.deserialize .nil pkb).1 (deserializeSign sigb))
+  | ["verify-raw", pkh, msg, sigh, hmh, peq] => match ofHex? pkh, ofHex? sigh, pt? hmh with
+    | some pkb, some sigb, some _ => match hmChecked? msg hmh with
+      | some hm =>
+        verdictWith peq (fun pe => verifySig pe hm (Pub.deserialize .nil pkb).1 (deserializeSign sigb))
+      | none => "hm-mismatch"
     | _, _, _ => "bad-op"
   | ["g1neg", a] => match pt? a with
     | some p => toHex (g1Marshal p.neg)
@@ -94,15 +107,18 @@ def step (_ : Unit) (line : String) : Unit × String :=
   | ["g1mul", a, k] => match pt? a, k.toNat? with
     | some p, some k => toHex (g1Marshal (p.mul k))
     | _, _ => "bad-op"
-  | ["sign", k, _msg, hmh] => match k.toNat?, pt? hmh with
-    | some k, some hm => toHex (Sig.serialize (sign k hm))
+  | ["sign", k, msg, hmh] => match k.toNat?, pt? hmh with
+    | some k, some _ => match hmChecked? msg hmh with
+      | some hm => toHex (Sig.serialize (sign k hm))
+      | none => "hm-mismatch"
     | _, _ => "bad-op"
-  | ["h2p", _msg, dg] => match ofHex? dg with
-    | some d => if d.length != 32 then "bad-op" else
-      match hashToPoint d with
+  | ["h2p", msg, dg] => match ofHex? msg, ofHex? dg with
+    | some m, some d =>
+      if Sha.sha256 m != d then "sha-mismatch " ++ toHex (Sha.sha256 m) else
+      match hashToG1 m with
       | some p => toHex (g1Marshal p)
       | none => "fuel"
-    | none => "bad-op"
+    | _, _ => "bad-op"
   | ["skser", k] => match k.toNat? with
     | some k => toHex (scalarSerialize k)
     | none => "bad-op"
